@@ -360,3 +360,8 @@ def rules(chk: Check) -> None:
     from . import c07
     chk.stage(c07.rules, Remap(chk, {"R07.4": "R02.9"}, only=lambda r, k, w: "hydrodynamics" in str(w)))
     chk.floor("R02.9", 3)
+    # R02.10: the v- handed back by matchDeflagOrHyb is the one its junction conditions were solved with: both sites use min(vw^2, csqLowT(T-)) with
+    # the solved T- (shared with C06 R06.4)
+    from . import c06
+    chk.stage(c06.r06_4, Remap(chk, {"R06.4": "R02.10"}))
+    chk.floor("R02.10", 1)
